@@ -401,12 +401,23 @@ func (r *DocumentHandler) ResolveDocument(shortOrLongFormDID string,
 		return doc, nil
 	}
 
-	// if document was not found on the blockchain and initial value has been provided resolve using initial value
-	if createReq != nil && strings.Contains(err.Error(), "not found") {
+	// if document was not found on the blockchain and initial value has been provided resolve using initial value;
+	// a request for a particular version can only be answered from anchored operations (and the error for an unknown
+	// version echoes the caller's version string, which may itself contain "not found")
+	if createReq != nil && strings.Contains(err.Error(), "not found") && !isVersionRequested(opts...) {
 		return r.resolveRequestWithInitialState(uniquePortion, shortOrLongFormDID, createReq, pv)
 	}
 
 	return nil, err
+}
+
+func isVersionRequested(opts ...document.ResolutionOption) bool {
+	resOpts, err := document.GetResolutionOptions(opts...)
+	if err != nil {
+		return false
+	}
+
+	return resOpts.VersionID != "" || resOpts.VersionTime != ""
 }
 
 func (r *DocumentHandler) getNamespace(shortOrLongFormDID string) (string, error) {
